@@ -296,6 +296,9 @@ func relTag(found, expected int) string {
 	if found == expected {
 		return "N"
 	}
+	if found == 0 {
+		return "0" // the number was lost altogether, whatever it was
+	}
 	return fmt.Sprintf("N%+d", found-expected)
 }
 
